@@ -55,7 +55,9 @@ CompNames == {"ampere_sgemm_128x64_nn",
               "void at::native::vectorized_elementwise_kernel<4, at::native::AddFunctor<float> >(int, float)",
               "sm80_xmma_gemm_f32f32",
               "void cutlass::Kernel<cutlass_80_tensorop>(Params)",
-              "void at::native::vectorized_elementwise_kernel<4, at::native::MulFunctor<float> >(int, float)"}
+              "void at::native::vectorized_elementwise_kernel<4, at::native::MulFunctor<float> >(int, float)",
+              \* a computation kernel whose name contains the word of another class, not at its start
+              "void fbgemm_gpu::fusedMemsetScatter_kernel<float>(float*, int)"}
 CommNames == {"ncclKernel_AllReduce_RING_LL_Sum_float(ncclWorkElem)",
               "ncclDevKernel_AllGather_RING_LL(ncclDevComm*)"}
 MemcpyNames == {"Memcpy HtoD (Pageable -> Device)", "Memcpy HtoD (Pinned -> Device)", "Memcpy DtoH (Device -> Pageable)",
@@ -73,6 +75,7 @@ ShortName(name) ==
     CASE name = "void at::native::vectorized_elementwise_kernel<4, at::native::AddFunctor<float> >(int, float)" -> "at::native::vectorized_elementwise_kernel"
       [] name = "void at::native::vectorized_elementwise_kernel<4, at::native::MulFunctor<float> >(int, float)" -> "at::native::vectorized_elementwise_kernel"
       [] name = "void cutlass::Kernel<cutlass_80_tensorop>(Params)" -> "cutlass::Kernel"
+      [] name = "void fbgemm_gpu::fusedMemsetScatter_kernel<float>(float*, int)" -> "fbgemm_gpu::fusedMemsetScatter_kernel"
       [] name = "ncclKernel_AllReduce_RING_LL_Sum_float(ncclWorkElem)" -> "ncclKernel_AllReduce_RING_LL_Sum_float"
       [] name = "ncclDevKernel_AllGather_RING_LL(ncclDevComm*)" -> "ncclDevKernel_AllGather_RING_LL"
       [] OTHER -> name
